@@ -443,6 +443,28 @@ pub fn gen_case(rng: &mut Rng, tier: &str, _profile: &str, stats: &mut Stats) ->
         Some(c) => (c as u64 + 2).clamp(3, 6),
         None => 5,
     };
+    if rng.chance(1, 8) {
+        // directed: an entry is inserted and never used again while its cache is asked for its size
+        // at short intervals (each well inside the ttl) for longer than two ttls; a lookup then
+        // finds it expired - being counted is not a use
+        stats.bump("gen.len-chain");
+        let capt = match cap { Some(0) => "2".to_string(), Some(c) => c.to_string(), None => "none".into() };
+        let mut ops = vec![format!("cnew {} {}", ttl, capt)];
+        let k = rng.below(nkeys);
+        ops.push(format!("cins 0 {} {}", k, rng.below(100)));
+        if rng.chance(1, 2) && nkeys > 1 {
+            ops.push(format!("cins 0 {} {}", (k + 1) % nkeys, rng.below(100)));
+        }
+        let step = (ttl * 6 / 10).max(1);
+        let mut t = 0u64;
+        while t < 2 * ttl + 20 {
+            t += step;
+            ops.push(format!("clen {}", t));
+        }
+        ops.push(format!("{} {} {}{}", if rng.chance(1, 2) { "cget" } else { "cpeek" }, t, k, ""));
+        ops.push(format!("clen {}", t));
+        return ops;
+    }
     let keepalive = rng.chance(1, 3);
     let mut long_budget = if rng.chance(3, 5) { 1 } else { 0 };
     let drain = rng.chance(1, 2);
